@@ -91,6 +91,12 @@ func httpHandlerClosures(p *core.Prog) []handlerClosure {
 func declaredMethod(p *core.Prog, nt *types.Named, name string) *ssa.Function {
 	for i := 0; i < nt.NumMethods(); i++ {
 		m := nt.Method(i)
+		if a, ok := core.FuncAlias[m]; ok {
+			if a == name {
+				return p.SSA.FuncValue(m)
+			}
+			continue
+		}
 		if m.Name() == name {
 			return p.SSA.FuncValue(m)
 		}
@@ -182,4 +188,297 @@ func constantInt64(v constant.Value) (int64, bool) {
 		return 0, false
 	}
 	return constant.Int64Val(v)
+}
+
+// SetupRoles finds the private identifiers the rules refer to by name (see
+// core.FieldAlias) by their role in the loaded program and registers the
+// canonical names. Idempotent; called once after loading. An identifier whose
+// role cannot be found keeps its real name (the rules then report
+// ANCHOR-MISSING where they need it).
+func SetupRoles(p *core.Prog) {
+	core.FieldAlias = map[*types.Var]string{}
+	core.TypeAlias = map[*types.TypeName]string{}
+	core.FuncAlias = map[*types.Func]string{}
+	mdT := metadataPkg + ".MD"
+	fieldsOfType := func(st *types.Struct, pred func(t types.Type) bool) []*types.Var {
+		var out []*types.Var
+		for i := 0; i < st.NumFields(); i++ {
+			if pred(st.Field(i).Type()) {
+				out = append(out, st.Field(i))
+			}
+		}
+		return out
+	}
+	// ---- frame: the struct type that is the element of the in-process frame channels
+	var frameT *types.Named
+	for _, fn := range p.LibFuncs("inprocgrpc") {
+		core.Instrs(fn, func(in ssa.Instruction) {
+			mk, ok := in.(*ssa.MakeChan)
+			if !ok {
+				return
+			}
+			el := mk.Type().Underlying().(*types.Chan).Elem()
+			nt, ok := el.(*types.Named)
+			if !ok {
+				return
+			}
+			st, ok := nt.Underlying().(*types.Struct)
+			if !ok {
+				return
+			}
+			if len(fieldsOfType(st, isAnyType)) == 1 && len(fieldsOfType(st, core.IsErrorType)) == 1 {
+				frameT = nt
+			}
+		})
+	}
+	if frameT != nil {
+		core.TypeAlias[frameT.Obj()] = "frame"
+		st := frameT.Underlying().(*types.Struct)
+		core.FieldAlias[fieldsOfType(st, isAnyType)[0]] = "data"
+		core.FieldAlias[fieldsOfType(st, core.IsErrorType)[0]] = "err"
+		mds := fieldsOfType(st, func(t types.Type) bool { return core.TypeStr(t) == mdT })
+		if len(mds) == 2 {
+			// which is which: the field whose value is handed to CallOptions.SetHeaders / SetTrailers
+			role := map[*types.Var]string{}
+			for _, fn := range p.LibFuncs("inprocgrpc") {
+				core.Instrs(fn, func(in ssa.Instruction) {
+					cc := core.CallOf(in)
+					if cc == nil || len(cc.Args) < 2 {
+						return
+					}
+					ci := core.InfoOf(cc)
+					if ci.Recv != "CallOptions" || (ci.Name != "SetHeaders" && ci.Name != "SetTrailers") {
+						return
+					}
+					for _, o := range core.Origins(cc.Args[1]) {
+						visitFrameField(o, frameT, func(v *types.Var) {
+							if ci.Name == "SetHeaders" {
+								role[v] = "headers"
+							} else {
+								role[v] = "trailers"
+							}
+						})
+					}
+				})
+			}
+			if role[mds[0]] == "" && role[mds[1]] == "" {
+				role[mds[0]], role[mds[1]] = "headers", "trailers" // declaration order
+			} else if role[mds[0]] == "" {
+				role[mds[0]] = other(role[mds[1]])
+			} else if role[mds[1]] == "" {
+				role[mds[1]] = other(role[mds[0]])
+			}
+			if role[mds[0]] != role[mds[1]] {
+				core.FieldAlias[mds[0]] = role[mds[0]]
+				core.FieldAlias[mds[1]] = role[mds[1]]
+			}
+		}
+		// kind(): the method without parameters returning a named integer type
+		for i := 0; i < frameT.NumMethods(); i++ {
+			m := frameT.Method(i)
+			sig := m.Type().(*types.Signature)
+			if sig.Params().Len() == 0 && sig.Results().Len() == 1 {
+				if b, ok := sig.Results().At(0).Type().Underlying().(*types.Basic); ok && b.Info()&types.IsInteger != 0 {
+					core.FuncAlias[m] = "kind"
+				}
+			}
+		}
+		// the peek slot: the *frame field of the in-process client stream
+		for _, nt := range streamTypes(p, "ClientStream", "RecvMsg") {
+			if pkgSuffixOf(nt) != "inprocgrpc" {
+				continue
+			}
+			if st, ok := nt.Underlying().(*types.Struct); ok {
+				ps := fieldsOfType(st, func(t types.Type) bool {
+					pt, ok := t.(*types.Pointer)
+					return ok && pt.Elem() == types.Type(frameT)
+				})
+				if len(ps) == 1 {
+					core.FieldAlias[ps[0]] = "last"
+				}
+			}
+		}
+	}
+	setupGeneratorRoles(p)
+	// ---- the in-process channel's cloner field
+	for _, ct := range channelTypes(p, "inprocgrpc") {
+		if st, ok := ct.Underlying().(*types.Struct); ok {
+			cs := fieldsOfType(st, func(t types.Type) bool { return core.NamedOf(t) == "Cloner" })
+			if len(cs) == 1 {
+				core.FieldAlias[cs[0]] = "cloner"
+			}
+		}
+	}
+	// ---- the HTTP client stream: type, trailer, message channel, completion flag, terminal error, context
+	for _, nt := range streamTypes(p, "ClientStream", "RecvMsg") {
+		if pkgSuffixOf(nt) != "httpgrpc" {
+			continue
+		}
+		st, ok := nt.Underlying().(*types.Struct)
+		if !ok {
+			continue
+		}
+		core.TypeAlias[nt.Obj()] = "clientStream"
+		one := func(pred func(t types.Type) bool, name string) {
+			if fs := fieldsOfType(st, pred); len(fs) == 1 {
+				core.FieldAlias[fs[0]] = name
+			}
+		}
+		one(func(t types.Type) bool { return core.NamedOf(t) == "HttpTrailer" }, "tr")
+		one(func(t types.Type) bool {
+			ch, ok := t.Underlying().(*types.Chan)
+			return ok && core.TypeStr(ch.Elem()) == "[]byte"
+		}, "rCh")
+		one(func(t types.Type) bool { return core.TypeStr(t) == "context.Context" }, "ctx")
+		// done / rErr: the bool and the error declared in the group of the RWMutex (fields after it up to the next mutex)
+		inGroup := false
+		for i := 0; i < st.NumFields(); i++ {
+			ts := core.TypeStr(st.Field(i).Type())
+			if ts == "sync.RWMutex" {
+				inGroup = true
+				continue
+			}
+			if ts == "sync.Mutex" {
+				inGroup = false
+				continue
+			}
+			if !inGroup {
+				continue
+			}
+			if ts == "bool" {
+				core.FieldAlias[st.Field(i)] = "done"
+			}
+			if core.IsErrorType(st.Field(i).Type()) {
+				core.FieldAlias[st.Field(i)] = "rErr"
+			}
+		}
+	}
+}
+
+// setupGeneratorRoles: the template data struct of the stub generator (the
+// struct with an int field and a gopoet.TypeName field built in the generator
+// function). Its field names are private and bound to the templates only; the
+// rules use the canonical names ServiceName, MethodName, ServiceDesc,
+// StreamClient, StreamIndex, RequestType. Aliases are registered only if the
+// struct does not already use exactly those names.
+func setupGeneratorRoles(p *core.Prog) {
+	canon := []string{"ServiceName", "MethodName", "ServiceDesc", "StreamClient", "StreamIndex", "RequestType"}
+	for _, fn := range p.LibFuncs(genPkg) {
+		core.Instrs(fn, func(in ssa.Instruction) {
+			al, ok := in.(*ssa.Alloc)
+			if !ok {
+				return
+			}
+			st, ok := al.Type().Underlying().(*types.Pointer).Elem().Underlying().(*types.Struct)
+			if !ok || st.NumFields() != len(canon) {
+				return
+			}
+			var ints, tns []*types.Var
+			have := map[string]bool{}
+			for i := 0; i < st.NumFields(); i++ {
+				f := st.Field(i)
+				have[f.Name()] = true
+				if b, ok := f.Type().Underlying().(*types.Basic); ok && b.Kind() == types.Int {
+					ints = append(ints, f)
+				}
+				if core.NamedOf(f.Type()) == "TypeName" {
+					tns = append(tns, f)
+				}
+			}
+			if len(ints) != 1 || len(tns) != 1 {
+				return
+			}
+			all := true
+			for _, cn := range canon {
+				if !have[cn] {
+					all = false
+				}
+			}
+			if all {
+				return
+			}
+			// string fields by what feeds them
+			role := map[*types.Var]string{ints[0]: "StreamIndex", tns[0]: "RequestType"}
+			for _, r := range core.Refs(al) {
+				fa, ok := r.(*ssa.FieldAddr)
+				if !ok {
+					continue
+				}
+				fv := st.Field(fa.Field)
+				if role[fv] != "" {
+					continue
+				}
+				for _, rr := range core.Refs(fa) {
+					stI, ok := rr.(*ssa.Store)
+					if !ok {
+						continue
+					}
+					switch d := describeFeed(stI.Val); {
+					case d == "GetFullyQualifiedName":
+						role[fv] = "ServiceName"
+					case d == "GetName":
+						role[fv] = "MethodName"
+					case strings.Contains(d, "GoTypeForStreamClientImpl"):
+						role[fv] = "StreamClient"
+					}
+				}
+			}
+			// the remaining string field is the descriptor variable's name
+			var rest []*types.Var
+			used := map[string]bool{}
+			for i := 0; i < st.NumFields(); i++ {
+				if r := role[st.Field(i)]; r != "" {
+					if used[r] {
+						return // ambiguous: keep real names
+					}
+					used[r] = true
+				} else {
+					rest = append(rest, st.Field(i))
+				}
+			}
+			if len(rest) == 1 && !used["ServiceDesc"] {
+				role[rest[0]] = "ServiceDesc"
+			} else if len(rest) != 0 {
+				return
+			}
+			for v, r := range role {
+				core.FieldAlias[v] = r
+			}
+		})
+	}
+}
+
+func other(r string) string {
+	if r == "headers" {
+		return "trailers"
+	}
+	return "headers"
+}
+
+// visitFrameField: v is (a load of) a field of the frame type.
+func visitFrameField(v ssa.Value, frameT *types.Named, f func(*types.Var)) {
+	var x ssa.Value
+	var idx int
+	switch y := v.(type) {
+	case *ssa.UnOp:
+		fa, ok := y.X.(*ssa.FieldAddr)
+		if !ok {
+			return
+		}
+		x, idx = fa.X, fa.Field
+	case *ssa.Field:
+		x, idx = y.X, y.Field
+	case *ssa.FieldAddr:
+		x, idx = y.X, y.Field
+	default:
+		return
+	}
+	t := x.Type()
+	if pt, ok := t.Underlying().(*types.Pointer); ok {
+		t = pt.Elem()
+	}
+	if t != types.Type(frameT) {
+		return
+	}
+	f(frameT.Underlying().(*types.Struct).Field(idx))
 }
